@@ -193,6 +193,107 @@ impl Segment {
         Ok(())
     }
 
+    /// Reconciles the log and the index file of a segment after an unclean stop: a trailing batch
+    /// that was only partially written is cut off, and the index is rewritten whenever it does not
+    /// describe exactly the complete batches of the log (entry missing because the process died
+    /// between the two writes, entries for batches that never reached the log, a torn entry).
+    pub async fn reconcile_log_and_index(
+        log_path: &str,
+        index_path: &str,
+        start_offset: u64,
+    ) -> Result<(), IggyError> {
+        const HEADER_LEN: usize = 24;
+        const INDEX_LEN: usize = 16;
+        let read_u32 =
+            |bytes: &[u8], at: usize| u32::from_le_bytes(bytes[at..at + 4].try_into().unwrap());
+        let read_u64 =
+            |bytes: &[u8], at: usize| u64::from_le_bytes(bytes[at..at + 8].try_into().unwrap());
+        let Ok(log_metadata) = tokio::fs::metadata(log_path).await else {
+            return Ok(());
+        };
+        let log_len = log_metadata.len() as usize;
+        let index = tokio::fs::read(index_path).await.unwrap_or_default();
+        // Cheap check first, the whole log is read only when something is wrong: the last index
+        // entry has to describe the batch that ends exactly at the end of the log.
+        let consistent = if index.is_empty() {
+            log_len == 0
+        } else if index.len() % INDEX_LEN != 0 {
+            false
+        } else {
+            let last_entry = index.len() - INDEX_LEN;
+            let relative_offset = read_u32(&index, last_entry) as u64;
+            let position = read_u32(&index, last_entry + 4) as usize;
+            let mut header = [0u8; HEADER_LEN];
+            let header_read = match tokio::fs::File::open(log_path).await {
+                Ok(mut file) => {
+                    use tokio::io::{AsyncReadExt, AsyncSeekExt};
+                    position + HEADER_LEN <= log_len
+                        && file
+                            .seek(std::io::SeekFrom::Start(position as u64))
+                            .await
+                            .is_ok()
+                        && file.read_exact(&mut header).await.is_ok()
+                }
+                Err(_) => false,
+            };
+            header_read
+                && position + HEADER_LEN + read_u32(&header, 8) as usize == log_len
+                && read_u64(&header, 0) + read_u32(&header, 12) as u64
+                    == start_offset + relative_offset
+        };
+        if consistent {
+            return Ok(());
+        }
+        let Ok(log) = tokio::fs::read(log_path).await else {
+            return Ok(());
+        };
+        let mut rebuilt_index = Vec::with_capacity(index.len());
+        let mut position = 0;
+        while position + HEADER_LEN <= log.len() {
+            let base_offset = read_u64(&log, position);
+            let length = read_u32(&log, position + 8) as usize;
+            let last_offset_delta = read_u32(&log, position + 12) as u64;
+            let max_timestamp = read_u64(&log, position + 16);
+            let Some(relative_offset) = (base_offset + last_offset_delta).checked_sub(start_offset)
+            else {
+                break;
+            };
+            if position + HEADER_LEN + length > log.len() {
+                break;
+            }
+            rebuilt_index.extend_from_slice(&(relative_offset as u32).to_le_bytes());
+            rebuilt_index.extend_from_slice(&(position as u32).to_le_bytes());
+            rebuilt_index.extend_from_slice(&max_timestamp.to_le_bytes());
+            position += HEADER_LEN + length;
+        }
+        if position < log.len() {
+            warn!(
+                "Log file {log_path} ends with {} bytes of an incomplete batch, truncating it to {position} bytes.",
+                log.len() - position
+            );
+            let file = tokio::fs::OpenOptions::new()
+                .write(true)
+                .open(log_path)
+                .await
+                .map_err(|_| IggyError::CannotReadFile)?;
+            file.set_len(position as u64)
+                .await
+                .map_err(|_| IggyError::CannotWriteToFile)?;
+            let _ = file.sync_all().await;
+        }
+        if rebuilt_index != index {
+            warn!(
+                "Index file {index_path} ({} entries) does not match the log file {log_path} ({} batches), rebuilding it.",
+                index.len() / INDEX_LEN,
+                rebuilt_index.len() / INDEX_LEN
+            );
+            tokio::fs::write(index_path, &rebuilt_index)
+                .await
+                .map_err(|_| IggyError::CannotWriteToFile)?;
+        }
+        Ok(())
+    }
+
     /// Save the segment state to disk.
     pub async fn persist(&mut self) -> Result<(), IggyError> {
         info!("Saving segment with start offset: {} for partition with ID: {} for topic with ID: {} and stream with ID: {}",
